@@ -1126,7 +1126,18 @@ def remove_duplicate_functions(source: str, preserve: Collection[str]) -> str:
     root = core.parse(source)
     function_defs = collections.defaultdict(set)
 
+    binding_counts = collections.Counter(
+        node.name
+        for node in core.walk(root, (ast.FunctionDef, ast.AsyncFunctionDef, ast.ClassDef))
+    )
+    binding_counts.update(node.id for node in core.walk(root, ast.Name(ctx=ast.Store)))
+    binding_counts.update(tracing.get_imported_names(root))
+
     for node in core.filter_nodes(root.body, ast.FunctionDef):
+        if binding_counts[node.name] > 1:
+            # The name does not always refer to this function
+            continue
+
         # Only names that the function binds itself may differ between duplicates. The names
         # it takes from outside (globals, builtins, other functions) mean what they say.
         bound_names = {node.name}
